@@ -470,6 +470,41 @@ def inline_private_helpers(p: Program, t: Term, depth: int = 2) -> Term:
     return helpers(t, depth)
 
 
+def inline_self_methods(p: Program, cls: ClassInfo, t: Term, exclude: tuple[str, ...] = (), depth: int = 2, strict: bool = False) -> Term:
+    """Calls `self.m(a, b)` of methods of the same class that are a single return statement replaced by what they return (parameters substituted).
+    `strict`: a call of a method of the class with statements of its own, whose result the term depends on, is an AnalysisError (what it computes - and
+    what it keeps - is not visible in a term)."""
+    import ast
+
+    from .npcanon import desugar
+
+    def go(u: Term, depth: int) -> Term:
+        if not isinstance(u, tuple):
+            return u
+        if u and u[0] == "call" and isinstance(u[1], tuple) and len(u[1]) == 3 and u[1][:2] == ("attr", ("param", "self")) and u[1][2] not in exclude and not u[3]:
+            m = cls.lookup(u[1][2])
+            if m is not None and not m.decorators and len(m.params) == len(u[2]) + 1:
+                body = [b for b in m.node.body if not (isinstance(b, ast.Expr) and isinstance(b.value, ast.Constant))]
+                if len(body) == 1 and isinstance(body[0], ast.Return) and body[0].value is not None and depth > 0:
+                    hr = Resolver(p, m)
+                    n = next(n_ for n_ in hr.cfg.stmt_nodes() if isinstance(n_.ast, ast.Return))
+                    bt = desugar(hr.term(n.ast.value, n))
+                    bound = {("param", q.name): go(a, depth) for q, a in zip(m.params[1:], u[2])}
+
+                    def subst(v: Term) -> Term:
+                        if isinstance(v, tuple) and v and isinstance(v[0], str):
+                            return bound[v] if v in bound else tuple(subst(x) for x in v)
+                        return tuple(subst(x) for x in v) if isinstance(v, tuple) else v
+
+                    return go(subst(bt), depth - 1)
+                if strict:
+                    raise AnalysisError(f"{cls.qualname}: the value depends on self.{u[1][2]}(...), a helper with statements of its own: what it computes (and keeps) is outside "
+                                        "the canonical-form model")
+        return tuple(go(x, depth) for x in u)
+
+    return go(t, depth)
+
+
 def return_term(p: Program, cls: ClassInfo, meth: str) -> Term:
     """Resolved term of the (single) value returned by cls.meth."""
     import ast
